@@ -173,6 +173,23 @@ where
         self
     }
 
+    /// Adds the constraint back to the store, unless propagation has bound any of its
+    /// operands, in which case the constraint is run again with the new values.
+    pub fn with_constraint_or_rerun(
+        self,
+        constraint: Rc<dyn Constraint<U, E>>,
+        walked: &[LTerm<U, E>],
+    ) -> SResult<U, E> {
+        if walked
+            .iter()
+            .any(|t| t.is_var() && self.smap_ref().walk(t) != t)
+        {
+            constraint.run(self)
+        } else {
+            Ok(self.with_constraint(constraint))
+        }
+    }
+
     pub fn take_constraint(
         mut self,
         constraint: &Rc<dyn Constraint<U, E>>,
@@ -190,6 +207,7 @@ where
     /// checks that the value is within the domain. If new domain constraint is added for a
     /// variable, it is updated to the domain store.
     pub fn process_domain(self, x: &LTerm<U, E>, domain: Rc<FiniteDomain>) -> SResult<U, E> {
+        let x = &self.smap_ref().walk(x).clone();
         match x.as_ref() {
             LTermInner::Var(_, _) => self.update_var_domain(x, domain),
             LTermInner::Val(LValue::Number(v)) if domain.contains(*v) => Ok(self),
